@@ -227,6 +227,8 @@ class G:
             f = self.pick(["fruits", "pd2"])
             sp = self.pick(["", "", " ", "  "])      # XPath allows white space between a function name and its parenthesis
             choices = [lambda: f"pulldata{sp}('{f}', 'c', 'k', {r()}) = {L}"]
+            if self.p("_", 0.1):
+                choices = [lambda: f"pulldata({r()}, 'c', 'k', {r()}) = {L}"]      # the file itself is named by an answer
         if self.P.get("p_instance_expr", 0) and self.lists and self.p("p_instance_expr"):
             ln = self.pick(self.lists)["name"]
             choices = [lambda: f"instance('{ln}')/root/item[name = {r()}]/label = {L}"]
